@@ -13,6 +13,7 @@ pub mod c10;
 pub mod c11;
 pub mod c12;
 pub mod c13;
+pub mod c14;
 pub mod c15;
 pub mod c16;
 #[cfg(feature = "hashable")]
@@ -41,6 +42,7 @@ pub fn lookup(id: &str) -> Option<Entry> {
         "C11" => Entry { id: "C11", run: c11::run, replay: c11::replay },
         "C12" => Entry { id: "C12", run: c12::run, replay: c12::replay },
         "C13" => Entry { id: "C13", run: c13::run, replay: c13::replay },
+        "C14" => Entry { id: "C14", run: c14::run, replay: c14::replay },
         "C15" => Entry { id: "C15", run: c15::run, replay: c15::replay },
         "C16" => Entry { id: "C16", run: c16::run, replay: c16::replay },
         "C17" => Entry { id: "C17", run: c17::run, replay: c17::replay },
